@@ -19,6 +19,7 @@ ENV2 = r'''
 #include <unistd.h>
 #include <time.h>
 int vp_env_failed;        /* ghost: some system call reported failure */
+extern const void *__CPROVER_alloca_object;   /* CPROVER's alloca model writes it */
 size_t vp_mc_i;
 ssize_t recv(int fd, void *buf, size_t len, int flags)
 __CPROVER_requires(__CPROVER_w_ok(buf, len))
@@ -41,13 +42,18 @@ __CPROVER_ensures(__CPROVER_return_value == 0 || __CPROVER_return_value == -1)
 __CPROVER_ensures(__CPROVER_return_value < 0 ==> vp_env_failed == 1)
 __CPROVER_ensures(__CPROVER_return_value >= 0 ==> vp_env_failed == __CPROVER_old(vp_env_failed))
 ;
+void *malloc(size_t n)
+__CPROVER_assigns(vp_env_failed)
+__CPROVER_ensures(__CPROVER_return_value == NULL ==> vp_env_failed == 1)
+__CPROVER_ensures(__CPROVER_return_value != NULL ==> (__CPROVER_is_fresh(__CPROVER_return_value, n) && vp_env_failed == __CPROVER_old(vp_env_failed)))
+;
 void perror(const char *s) { }
 int fprintf(FILE *f, const char *fmt, ...) { return 0; }
 '''
 
 AAF_ASSUME = [
     'trusted environment contracts: recv, clock_gettime, timerfd_settime (ghost vp_env_failed is set exactly when one of them reports failure); perror/fprintf are no-op stubs',
-    'malloc is the CPROVER model (may fail); a failed allocation counts as an environment failure',
+    'malloc is replaced by a trusted contract (returns NULL and sets the ghost, or a fresh object)',
     'only new_packet and its helpers are under contract; timeout(), main() and socket set-up are not',
 ]
 
@@ -95,7 +101,7 @@ __CPROVER_ensures(__CPROVER_return_value == 0 || __CPROVER_return_value == 1)
 static int schedule_sample(int fd, struct timespec *tspec, uint8_t *pcm_sample)
 __CPROVER_requires(__CPROVER_r_ok(tspec, sizeof(struct timespec)) && __CPROVER_r_ok(pcm_sample, DATA_LEN) && VP_QUEUE_OK)
 __CPROVER_assigns(__CPROVER_object_whole(&samples); *samples.stqh_last; vp_env_failed)
-__CPROVER_ensures(__CPROVER_return_value == 0 || __CPROVER_return_value == -1)
+__CPROVER_ensures(__CPROVER_return_value == 0 || (__CPROVER_return_value == -1 && vp_env_failed == 1)) /*TAG C18:helper-fails-only-if-the-environment-failed*/
 /* success: the tail link now lives in a freshly allocated entry (the link is its first member);
  * failure: the queue tail is what it was */
 __CPROVER_ensures(__CPROVER_return_value == 0 ==> __CPROVER_is_fresh(samples.stqh_last, sizeof(struct sample_entry))) /*TAG C18:queue-stays-well-formed-for-the-next-datagram*/
@@ -105,6 +111,7 @@ static int new_packet(int sk_fd, int timer_fd)
 __CPROVER_requires(VP_QUEUE_OK)
 __CPROVER_assigns(expected_seq; __CPROVER_object_whole(&samples); *samples.stqh_last; vp_env_failed; __CPROVER_alloca_object)
 __CPROVER_ensures(__CPROVER_return_value == 0 || __CPROVER_return_value == -1) /*TAG C18:receive-path-returns*/
+__CPROVER_ensures(__CPROVER_return_value == -1 ==> vp_env_failed == 1) /*TAG C18:listener-gives-up-only-if-a-system-call-failed(any-datagram-is-survived)*/
 __CPROVER_ensures(VP_QUEUE_OK) /*TAG C18:queue-stays-well-formed-for-the-next-datagram*/
 ;
 '''
@@ -119,16 +126,16 @@ __CPROVER_ensures(VP_QUEUE_OK) /*TAG C18:queue-stays-well-formed-for-the-next-da
 
     common_havoc = '    expected_seq = nondet_u8(); vp_env_failed = 0; vp_mc_i = nondet_size();\n'
     queue_setup = ('    STAILQ_INIT(&samples);\n'
-                   '    if (nondet_bool()) { struct sample_entry *e0 = malloc(sizeof(*e0)); __CPROVER_assume(e0 != NULL); e0->entries.stqe_next = NULL;\n'
+                   '    if (nondet_bool()) { struct sample_entry *e0 = __CPROVER_allocate(sizeof(*e0), 0); e0->entries.stqe_next = NULL;\n'
                    '                         samples.stqh_first = e0; samples.stqh_last = &e0->entries.stqe_next; }\n')
     jobs.append(mk('new_packet', 'new_packet',
                    ['recv', 'is_valid_packet', 'avtp_aaf_pdu_get', 'get_presentation_time', 'schedule_sample'],
                    'void harness(void)\n{\n' + common_havoc + queue_setup + '    new_packet(nondet_int(), nondet_int());\n    VP_CANARY();\n}\n'))
     jobs.append(mk('is_valid_packet', 'is_valid_packet', ['avtp_pdu_get', 'avtp_aaf_pdu_get'],
                    'void harness(void)\n{\n' + common_havoc +
-                   '    struct avtp_stream_pdu *pdu = malloc(sizeof(struct avtp_stream_pdu)); __CPROVER_assume(pdu != NULL);\n'
+                   '    struct avtp_stream_pdu *pdu = __CPROVER_allocate(sizeof(struct avtp_stream_pdu), 0);\n'
                    '    is_valid_packet(pdu);\n    VP_CANARY();\n}\n'))
-    jobs.append(mk('schedule_sample', 'schedule_sample', ['arm_timer'],
+    jobs.append(mk('schedule_sample', 'schedule_sample', ['arm_timer', 'malloc'],
                    'void harness(void)\n{\n' + common_havoc + queue_setup +
                    '    struct timespec ts; uint8_t sample[DATA_LEN];\n    schedule_sample(nondet_int(), &ts, sample);\n    VP_CANARY();\n}\n',
                    extra_assume=['memcpy of the constant DATA_LEN bytes uses the CPROVER model',
@@ -138,4 +145,93 @@ __CPROVER_ensures(VP_QUEUE_OK) /*TAG C18:queue-stays-well-formed-for-the-next-da
                    'void harness(void)\n{\n' + common_havoc + '    struct timespec ts;\n    get_presentation_time(nondet_u64(), &ts);\n    VP_CANARY();\n}\n'))
     jobs.append(mk('arm_timer', 'arm_timer', ['timerfd_settime'],
                    'void harness(void)\n{\n' + common_havoc + '    struct timespec ts;\n    arm_timer(nondet_int(), &ts);\n    VP_CANARY();\n}\n'))
+    return jobs
+
+
+CVF_ASSUME = AAF_ASSUME + ['memcpy replaced by a trusted contract (destination writable, source readable) where its length is symbolic']
+
+MEMCPY_CONTRACT = r'''
+void *memcpy(void *dst, const void *src, size_t n)
+__CPROVER_requires(__CPROVER_w_ok(dst, n) && __CPROVER_r_ok(src, n))
+__CPROVER_assigns(n != 0 : __CPROVER_object_upto((unsigned char *)dst, n))
+__CPROVER_ensures(__CPROVER_return_value == dst)
+;
+'''
+
+
+def cvf_listener_jobs(model, tier, config='le'):
+    import gen_contracts as G
+    inc = [os.path.join(REPO, 'examples')]
+    cvf = model['fmts']['cvf']
+    getters = ['Avtp_Cvf_GetSubtype', 'Avtp_Cvf_GetVersion', 'Avtp_Cvf_GetTv', 'Avtp_Cvf_GetStreamId', 'Avtp_Cvf_GetSequenceNum',
+               'Avtp_Cvf_GetFormat', 'Avtp_Cvf_GetFormatSubtype', 'Avtp_Cvf_GetStreamDataLength', 'Avtp_Cvf_GetAvtpTimestamp']
+    gen = G.format_contracts(model, cvf, needed=set(getters)).text()
+    pre = (G.PRELUDE + ENV2 + MEMCPY_CONTRACT + gen +
+           '#define main vp_cvf_listener_main\n#include "cvf/cvf-listener.c"\n#undef main\n#include "common/common.c"\n')
+    contracts = r'''
+int get_presentation_time(uint64_t avtp_time, struct timespec *tspec)
+__CPROVER_requires(__CPROVER_w_ok(tspec, sizeof(struct timespec)))
+__CPROVER_assigns(*tspec; vp_env_failed)
+__CPROVER_ensures(__CPROVER_return_value == 0 || (__CPROVER_return_value == -1 && vp_env_failed == 1))
+__CPROVER_ensures(__CPROVER_return_value == 0 ==> vp_env_failed == __CPROVER_old(vp_env_failed))
+;
+int arm_timer(int fd, struct timespec *tspec)
+__CPROVER_requires(__CPROVER_r_ok(tspec, sizeof(struct timespec)))
+__CPROVER_assigns(vp_env_failed)
+__CPROVER_ensures(__CPROVER_return_value == 0 || (__CPROVER_return_value == -1 && vp_env_failed == 1))
+__CPROVER_ensures(__CPROVER_return_value == 0 ==> vp_env_failed == __CPROVER_old(vp_env_failed))
+;
+static bool is_valid_packet(Avtp_Cvf_t* cvf)
+__CPROVER_requires(__CPROVER_r_ok(cvf, sizeof(Avtp_Cvf_t)))
+__CPROVER_assigns(expected_seq)
+__CPROVER_ensures(__CPROVER_return_value == 0 || __CPROVER_return_value == 1)
+;
+static uint16_t get_h264_data_len(Avtp_Cvf_t* cvf)
+__CPROVER_requires(__CPROVER_r_ok(cvf, sizeof(Avtp_Cvf_t)))
+__CPROVER_assigns()
+__CPROVER_ensures(__CPROVER_return_value == (uint16_t)(vp_get_bits(cvf->header, 160, 16) - 4u))
+;
+#define VP_QUEUE_OK (nals.stqh_last != NULL && __CPROVER_w_ok(nals.stqh_last, sizeof(struct nal_entry *)))
+static int schedule_nal(int fd, struct timespec *tspec, uint8_t *nal, ssize_t len)
+__CPROVER_requires(__CPROVER_r_ok(tspec, sizeof(struct timespec)) && len >= 0 && len <= DATA_LEN && __CPROVER_r_ok(nal, len) && VP_QUEUE_OK)
+__CPROVER_assigns(__CPROVER_object_whole(&nals); *nals.stqh_last; vp_env_failed)
+__CPROVER_ensures(__CPROVER_return_value == 0 || (__CPROVER_return_value == -1 && vp_env_failed == 1)) /*TAG C18:helper-fails-only-if-the-environment-failed*/
+__CPROVER_ensures(__CPROVER_return_value == 0 ==> __CPROVER_is_fresh(nals.stqh_last, sizeof(struct nal_entry))) /*TAG C18:queue-stays-well-formed-for-the-next-datagram*/
+__CPROVER_ensures(__CPROVER_return_value == -1 ==> nals.stqh_last == __CPROVER_old(nals.stqh_last)) /*TAG C18:queue-stays-well-formed-for-the-next-datagram*/
+;
+static int new_packet(int sk_fd, int timer_fd)
+__CPROVER_requires(VP_QUEUE_OK)
+__CPROVER_assigns(expected_seq; __CPROVER_object_whole(&nals); *nals.stqh_last; vp_env_failed; __CPROVER_alloca_object)
+__CPROVER_ensures(__CPROVER_return_value == 0 || __CPROVER_return_value == -1) /*TAG C18:receive-path-returns*/
+__CPROVER_ensures(__CPROVER_return_value == -1 ==> vp_env_failed == 1) /*TAG C18:listener-gives-up-only-if-a-system-call-failed(any-datagram-is-survived)*/
+__CPROVER_ensures(VP_QUEUE_OK) /*TAG C18:queue-stays-well-formed-for-the-next-datagram*/
+;
+'''
+    jobs = []
+
+    def mk(name, enforce, replace, body, extra_assume=(), timeout=1800, unwind=None):
+        src = pre + contracts + body
+        return Job('examples/cvf-listener/' + name, src, [], enforce=enforce, replace=replace,
+                   owners={'post': ['C18'], 'safety': ['C18'], 'assigns': ['C18'], 'loop': ['C18']}, clause_map=_tags(src),
+                   function='cvf-listener.c:' + enforce, kind='example', config=config, includes=inc, timeout=timeout, unwind=unwind,
+                   assumptions=CVF_ASSUME + list(extra_assume))
+
+    hv = '    expected_seq = nondet_u8(); vp_env_failed = 0; vp_mc_i = nondet_size();\n'
+    qs = ('    STAILQ_INIT(&nals);\n'
+          '    if (nondet_bool()) { struct nal_entry *e0 = __CPROVER_allocate(sizeof(*e0), 0); e0->entries.stqe_next = NULL;\n'
+          '                         nals.stqh_first = e0; nals.stqh_last = &e0->entries.stqe_next; }\n')
+    jobs.append(mk('new_packet', 'new_packet',
+                   ['recv', 'is_valid_packet', 'get_presentation_time', 'get_h264_data_len', 'schedule_nal',
+                    'Avtp_Cvf_GetStreamDataLength', 'Avtp_Cvf_GetAvtpTimestamp'],
+                   'void harness(void)\n{\n' + hv + qs + '    new_packet(nondet_int(), nondet_int());\n    VP_CANARY();\n}\n'))
+    jobs.append(mk('is_valid_packet', 'is_valid_packet', [g for g in getters if g not in ('Avtp_Cvf_GetStreamDataLength', 'Avtp_Cvf_GetAvtpTimestamp')],
+                   'void harness(void)\n{\n' + hv + '    Avtp_Cvf_t *cvf = __CPROVER_allocate(sizeof(Avtp_Cvf_t), 0);\n    is_valid_packet(cvf);\n    VP_CANARY();\n}\n'))
+    jobs.append(mk('get_h264_data_len', 'get_h264_data_len', ['Avtp_Cvf_GetStreamDataLength'],
+                   'void harness(void)\n{\n' + hv + '    Avtp_Cvf_t *cvf = __CPROVER_allocate(sizeof(Avtp_Cvf_t), 0);\n    get_h264_data_len(cvf);\n    VP_CANARY();\n}\n'))
+    jobs.append(mk('schedule_nal', 'schedule_nal', ['arm_timer', 'malloc', 'memcpy'],
+                   'void harness(void)\n{\n' + hv + qs +
+                   '    struct timespec ts; ssize_t len = (ssize_t)nondet_size(); __CPROVER_assume(len >= 0 && len <= DATA_LEN);\n'
+                   '    uint8_t *nal = __CPROVER_allocate(len, 0);\n    schedule_nal(nondet_int(), &ts, nal, len);\n    VP_CANARY();\n}\n',
+                   extra_assume=['the search loop of STAILQ_REMOVE is closed by an unwinding assertion with bound 1: it is proved never to iterate (the removed entry is the head)'],
+                   unwind={'schedule_nal': 1}))
     return jobs
